@@ -65,6 +65,10 @@ func init() {
 							continue
 						}
 						add("verifH_c18_accept", P("scheme", scheme, "bs", bs, "n", n))
+						if bs > 64 {
+							// tens of thousands of header values to enumerate for the 255-byte block: ~9 min
+							cs[len(cs)-1].TimeoutS = 2400
+						}
 					}
 				}
 			}
